@@ -21,7 +21,7 @@ package core
 //@ extern strings.ContainsRune(s, r)
 //@   attr pure deterministic nopanic
 //@   ensures imp(0 <= r && r < 128, result == contains(s, char(r)))
-//@ extern (io/fs.FileInfo).IsDir(i)
+//@ extern (os.FileInfo).IsDir(i)
 //@   attr pure nopanic
 
 // confined(p): p = Join(Dir(f), q) for an already opened project file f and a relative,
@@ -38,6 +38,7 @@ package core
 //@ extern os.Stat(name)
 //@   attr nopanic
 //@   requires[C14,@path-confined] confined(name)
+//@   ensures imp(result1 == nil, result0 != nil)
 //@ extern os.ReadFile(name)
 //@   attr nopanic
 //@   requires[C14,@path-confined] confined(name)
@@ -55,3 +56,43 @@ package core
 //@   property C14
 //@   requires[C14,@path-confined] confined(p)
 //@   ensures imp(result1 == nil, result0 != nil && fresh(result0))
+
+// ---------------------------------------------------------------------------
+// Scanning phase
+
+//@ inlinepkg github.com/jsightapi/jsight-schema-core/bytes
+//@ inlinepkg github.com/jsightapi/jsight-schema-core/fs
+
+//@ pred lexValOK(f *fs.File, b bytes.Index, e bytes.Index) := f != nil && b <= e + 1 && e + 1 <= len(f.content.data)
+//@ pred coreScanInv(core *JApiCore) := core != nil && core.scanner != nil && scanner.scannerInv(core.scanner)
+//@     && core.scannersStack != nil && scanner.stackInv(core.scannersStack)
+//@     && imp(core.currentDirective != nil, directive.dirOK(core.currentDirective))
+
+//@ func (*JApiCore).japiError(core, msg, i)
+//@   property C07,C01
+//@   requires core != nil && core.scanner != nil && core.scanner.file != nil
+//@   requires[C01,C07,@err-file] len(core.scanner.file.content.data) > 0 && i <= len(core.scanner.file.content.data)
+//@   requires[C07,@err-index-inside] i < len(core.scanner.file.content.data)
+//@   ensures result != nil && fresh(result) && result.File == core.scanner.file && result.Index == i && result.Msg == msg
+
+//@ func japiErrorForLexeme(lex, msg)
+//@   property C07,C01
+//@   requires lex != nil && scanner.lexOK(lex) && lex.begin < len(lex.file.content.data)
+//@   ensures result != nil && fresh(result) && result.File == lex.file && result.Index == lex.begin && result.Msg == msg
+
+//@ func (*JApiCore).getIncludedFilePath(core, keyword)
+//@   property C14,C01,C09
+//@   requires coreScanInv(core) && keyword != nil && scanner.lexOK(keyword) && keyword.begin < len(keyword.file.content.data)
+//@   modifies scanner.nextMod(core.scanner)
+//@   ensures[C14,@path-confined] imp(result1 == nil, confined(result0))
+//@   ensures imp(result1 == nil, scanner.scannerInv(core.scanner))
+
+//@ func (*JApiCore).processInclude(core, keyword)
+//@   property C14,C01,C09
+//@   requires coreScanInv(core) && keyword != nil && scanner.lexOK(keyword) && keyword.begin < len(keyword.file.content.data)
+//@   requires keyword.file == core.scanner.file
+//@   modifies core.scanner, scanner.nextMod(core.scanner),
+//@            fields(core.scannersStack), core.scannersStack.stack[:], core.scannersStack.hashes[:], core.scannersStack.uniqueFiles[:]
+//@   ensures imp(result == nil, coreScanInv(core))
+//@   ensures[C09,@include-keeps-pending] core.currentDirective == old(core.currentDirective) && core.currentContextDirective == old(core.currentContextDirective)
+//@   ensures scanner.itemsOK(core.scannersStack)
